@@ -320,7 +320,7 @@ def bounded(K):
         for s, exp in cases:
             for dt in (int, float, complex):
                 n += 1
-                strings.add((s, dt.__name__))
+                strings.add(s + '|' + dt.__name__)
                 try:
                     b = str2array(s, dt)
                     if b.dtype != np.dtype(dt) or b.shape != np.array(exp).shape or not np.array_equal(b, np.array(exp, dtype=dt)):
